@@ -37,8 +37,9 @@ pub fn install_panic_hook() {
             Some(l) => normalise_site(l.file(), l.line()),
             None => "unknown".to_string(),
         };
-        // a panic outside `catch` is a harness bug: never silent
-        if CATCH_DEPTH.with(|d| d.get()) == 0 || std::env::var_os("SIM_PANIC_VERBOSE").is_some() {
+        // a panic outside `catch` is a harness bug, and a panic that cannot unwind
+        // (core's `unsafe precondition(s) violated` checks) is about to abort: never silent
+        if CATCH_DEPTH.with(|d| d.get()) == 0 || info.payload_as_str().map(|m| m.contains("unsafe precondition")).unwrap_or(false) || std::env::var_os("SIM_PANIC_VERBOSE").is_some() {
             eprintln!("[sim] panic at {}: {}", site, info);
         }
         LAST_PANIC.with(|p| *p.borrow_mut() = Some(site));
